@@ -89,11 +89,19 @@ pub fn exec(func: &str, a: &mut Args) -> String {
         "rc_compound" => { let c = compound(a); let (ray, m, s) = ray_tail(a); ointer(c.cast_local_ray_and_get_normal(&ray, m, s)) }
         "rc_compound_toi" => { let c = compound(a); let (ray, m, s) = ray_tail(a); otoi(c.cast_local_ray(&ray, m, s)) }
         "rc_polyline2" => { let pl = polyline2(a); let (ray, m, s) = ray_tail2(a); ointer2(pl.cast_local_ray_and_get_normal(&ray, m, s)) }
+        "rc_hf2" => { let hf = hf2(a); let (ray, m, s) = ray_tail2(a); ointer2(hf.cast_local_ray_and_get_normal(&ray, m, s)) }
         _ => "nofn".into(),
     }
 }
 
 // ------------------------------------------------------------------ composite shapes on the wire
+/// 2-D heightfield: `n h[n] sx sy nrem (i)*nrem`
+fn hf2(a: &mut Args) -> crate::p2::shape::HeightField {
+    let n = a.u(); let hs: Vec<f64> = (0..n).map(|_| a.f()).collect(); let sc = d2::v(a);
+    let mut hf = crate::p2::shape::HeightField::new(crate::p2::na::DVector::from_vec(hs), sc);
+    let nrem = a.u(); for _ in 0..nrem { let i = a.u(); hf.set_segment_removed(i, true); }
+    hf
+}
 /// heightfield: `nr nc h[nr*nc] (column-major) sx sy sz ns (i j bits)*ns`
 fn hf3(a: &mut Args) -> HeightField {
     let nr = a.u(); let nc = a.u();
@@ -124,7 +132,7 @@ fn polyline2(a: &mut Args) -> crate::p2::shape::Polyline {
 // ------------------------------------------------------------------ generators
 
 /// functions whose Lean handler exists (widened as the model grows)
-const ENABLED: &[&str] = &["simd_aabb_cast", "rc_hf3", "rc_hf3_posed", "rc_trimesh", "rc_trimesh_toi", "rc_compound", "rc_compound_toi", "rc_polyline2", "ball_toi", "ball_normal", "ball_posed", "ray_toi_with_ball", "bsphere_normal", "aabb_toi", "aabb_normal", "clip_aabb_line", "cuboid_toi", "cuboid_normal", "cuboid_posed", "cuboid_posed_toi", "halfspace_normal", "halfspace_posed", "triangle_normal", "triangle_inter", "segment2_normal", "segment2_posed", "capsule_normal", "cylinder_normal", "cone_normal"];
+const ENABLED: &[&str] = &["rc_hf2", "simd_aabb_cast", "rc_hf3", "rc_hf3_posed", "rc_trimesh", "rc_trimesh_toi", "rc_compound", "rc_compound_toi", "rc_polyline2", "ball_toi", "ball_normal", "ball_posed", "ray_toi_with_ball", "bsphere_normal", "aabb_toi", "aabb_normal", "clip_aabb_line", "cuboid_toi", "cuboid_normal", "cuboid_posed", "cuboid_posed_toi", "halfspace_normal", "halfspace_posed", "triangle_normal", "triangle_inter", "segment2_normal", "segment2_posed", "capsule_normal", "cylinder_normal", "cone_normal"];
 
 const DIR_SCALES: [f64; 9] = [0.001, 0.015625, 0.125, 0.5, 1.0, 2.0, 8.0, 64.0, 1000.0];
 
@@ -712,6 +720,44 @@ fn gen_composites(r: &mut Rng, thorough: bool, v: &mut Vec<(String, String)>) {
                 let m = gen_max(r, lat, t0, d.norm());
                 v.push(("rc_compound".into(), format!("{} {}", w, tail(&o, &d, m, solid))));
                 v.push(("rc_compound_toi".into(), format!("{} {}", w, tail(&o, &d, m, solid))));
+            }
+        }
+        // ---------------- heightfield (2-D)
+        {
+            let n = 2 + r.below(6) as usize;
+            let pat = r.below(5);
+            let hs: Vec<f64> = (0..n).map(|i| match pat { 0 => 0.5, 1 => (i % 2) as f64 * 0.5, _ => if lat { r.range(-4, 4) as f64 * 0.25 } else { r.uniform(-1.0, 1.0) } }).collect();
+            let sc = if lat { V2::new(*r.pick(&[2.0, 4.0, 8.0]), *r.pick(&[1.0, 2.0, 0.5])) } else { V2::new(r.uniform(1.0, 10.0), r.uniform(0.3, 3.0)) };
+            let mut rem = Vec::new();
+            if r.below(3) == 0 { for i in 0..n - 1 { if r.below(3) == 0 { rem.push(i); } } }
+            let w = format!("{} {} {} {}{}", n, hxs(hs.iter()), d2::hv(&sc), rem.len(), rem.iter().map(|i| format!(" {}", i)).collect::<String>());
+            let hf = { let mut a = Args::new(&w); hf2(&mut a) };
+            let vtx = |i: usize| -> P2 { P2::new((-0.5 + i as f64 / (n - 1) as f64) * sc.x, hs[i] * sc.y) };
+            let (ymin, ymax) = (hs.iter().cloned().fold(f64::MAX, f64::min) * sc.y, hs.iter().cloned().fold(-f64::MAX, f64::max) * sc.y);
+            for _ in 0..4 {
+                let k = r.below(n as u64 - 1) as usize; let (pa, pb) = (vtx(k), vtx(k + 1));
+                let t = if lat { *r.pick(&[0.0, 0.25, 0.5, 1.0]) } else { r.unit() };
+                let p = pa + (pb - pa) * t;
+                let off = loop { let v = if lat { V2::new(r.lattice(16, 1), r.lattice(16, 1)) } else { d2::gen_v(r, false, 6.0) }; if v.norm_squared() > 0.0 { break v; } };
+                let ymid = if lat { (ymin + ymax) * 0.5 } else { r.uniform(ymin, ymax) };
+                let (o, d) = match r.below(9) {
+                    0 | 1 => { let o = p + off; (o, if r.below(6) == 0 { o - p } else { p - o }) }
+                    2 => { // vertical ray over a vertex / inside a cell, from above or below
+                           let up = r.bool(); let gap = if lat { r.range(-1, 6) as f64 * 0.5 } else { r.uniform(-0.5, 3.0) };
+                           if up { (P2::new(p.x, ymin - gap), V2::new(0.0, 1.0)) } else { (P2::new(p.x, ymax + gap), V2::new(0.0, -1.0)) } }
+                    3 | 4 => { // horizontal ray at a height inside the relief, from outside (entering through a side face) or from inside
+                           let x0 = if r.bool() { sc.x * if lat { *r.pick(&[-1.0, -0.75, 0.75, 1.0]) } else { r.uniform(-1.5, 1.5) } } else { p.x };
+                           let dirx = if x0 > 0.0 || (x0 > -0.5 * sc.x && r.bool()) { -1.0 } else { 1.0 };
+                           (P2::new(x0, ymid), V2::new(dirx, if lat { *r.pick(&[0.0, 0.0, 0.125, -0.125]) } else { r.uniform(-0.2, 0.2) })) }
+                    5 => (p, rand_dir2(r, lat)),
+                    6 => { let e = pb - pa; let s = if r.bool() { 1.0 } else { -1.0 }; let back = if lat { r.range(-2, 4) as f64 * 0.5 } else { r.uniform(-1.0, 2.0) }; (p - e * (s * back), e * s) }
+                    _ => (p + off, rand_dir2(r, lat)),
+                };
+                let d = if d.norm_squared() == 0.0 { V2::new(1.0, 0.0) } else { d };
+                let d = if lat { d * *r.pick(&POW2_SCALES) } else { d * (dir_scale(r, false) / d.norm()) };
+                let t0 = hf.cast_local_ray(&Ray2::new(o, d), f64::MAX, solid);
+                let m = gen_max(r, lat, t0, d.norm());
+                v.push(("rc_hf2".into(), format!("{} {}", w, tail2(&o, &d, m, solid))));
             }
         }
         // ---------------- Polyline (2-D)
